@@ -123,6 +123,9 @@ impl XmlConverter {
                     }
                 }
                 if let Some((prefix, uri)) = ns {
+                    // The xml writer emits namespace uris verbatim, unlike
+                    // attribute values, so we have to escape them ourselves.
+                    let uri = xml::escape::escape_str_attribute(uri).into_owned();
                     if prefix.is_empty() {
                         start = start.default_ns(uri);
                     } else {
